@@ -96,7 +96,7 @@ def region_vr53_all_ones(msg, name):
     return F.bit(mb, 47) == 1 and (raw == 255 or (raw == 0 and F.bit(mb, 48) == 1))
 
 
-@harness(("C11", "C12", "C14", "C17"), inputs={"msg": HexStr(28), "name": Choice(*SCALAR)}, functions=ALL_DECODERS,
+@harness(("C11", "C12", "C14"), inputs={"msg": HexStr(28), "name": Choice(*SCALAR)}, functions=ALL_DECODERS,
          body_of=ALL_DECODERS, regions=["region_vr53_all_ones"])
 def field_decoder_body(msg, name):
     f = getattr(MODS[commb_spec.REGISTER_OF[name]], name)
@@ -104,13 +104,13 @@ def field_decoder_body(msg, name):
         "decoder == status-gated (two's-complement | unsigned) field x LSB + offset, per Doc 9871"
 
 
-@harness(("C11", "C12", "C14", "C17"), inputs={"msg": HexStr(28)}, functions=[D + "44.wind44"], body_of=[D + "44.wind44"])
+@harness(("C11", "C12", "C14"), inputs={"msg": HexStr(28)}, functions=[D + "44.wind44"], body_of=[D + "44.wind44"])
 def wind44_body(msg):
     assert outcome_close(outcome(B44.wind44, msg), outcome(commb_spec.wind44, msg)), \
         "wind44 == (speed bits 6-14, direction bits 15-23 x 180/256), (None, None) iff status bit 5 clear"
 
 
-@harness(("C11", "C12", "C14", "C17"), inputs={"msg": HexStr(28)}, functions=[D + "44.temp44"], body_of=[D + "44.temp44"])
+@harness(("C11", "C12", "C14"), inputs={"msg": HexStr(28)}, functions=[D + "44.temp44"], body_of=[D + "44.temp44"])
 def temp44_body(msg):
     assert outcome_close(outcome(B44.temp44, msg), outcome(commb_spec.temp44, msg)), \
         "temp44 == two's-complement (sign 24, bits 25-34) x 0.25 (and x 0.125), unconditionally"
